@@ -3,7 +3,8 @@
 (* every sequence of make, copy-construct, move-construct, copy-assign (also  *)
 (* onto itself and onto equal-looking targets), move-assign, mutate and       *)
 (* equality tests over a small alphabet of values: the empty packet, packets  *)
-(* with zero-length payloads of different types, a data packet, the same with *)
+(* with zero-length payloads of different types, a packet whose payload is of  *)
+(* type invalid, a data packet, the same with                                  *)
 (* one payload byte or one header field changed, status packets.  A moved-    *)
 (* from slot is unspecified ("U") and only used as an assignment target; "N"  *)
 (* is a slot that holds no object yet.  The store semantics is the whole      *)
@@ -17,7 +18,7 @@ vars == << store, hist >>
 View == store
 
 Slots == 1..NSlots
-Vals == {"E", "Z1", "Z2", "P", "Pb", "Ph", "S", "S2"}
+Vals == {"E", "Z1", "Z2", "P", "Pb", "Ph", "S", "S2", "I"}
 
 Base == [dev |-> 7, st |-> 3, ver |-> 2, seq |-> 11, ts |-> << 1, 2, 3, 4, 5, 6, 7, 8 >>, ifid |-> << 0, 0, 1, 2 >>, vid |-> 77,
          fl |-> 33, seg |-> 0]
@@ -28,6 +29,7 @@ Desc(v) ==
       [] v = "P"  -> Base @@ [mt |-> 1, pt |-> 255, pl |-> << 10, 20, 30 >>]
       [] v = "Pb" -> Base @@ [mt |-> 1, pt |-> 255, pl |-> << 10, 21, 30 >>]
       [] v = "Ph" -> [Base EXCEPT !.ts = << 1, 2, 3, 4, 5, 6, 7, 9 >>] @@ [mt |-> 1, pt |-> 255, pl |-> << 10, 20, 30 >>]
+      [] v = "I"  -> Base @@ [mt |-> 0, pt |-> 0, pl |-> << 0, 0, 0 >>]          \* payload of type invalid, as the decoder returns for a rejected message
       [] v = "S"  -> Base @@ [mt |-> 3, pt |-> 255, pl |-> << 4, 5 >>]
       [] v = "S2" -> [Base EXCEPT !.ts = << 1, 2, 3, 4, 5, 6, 7, 9 >>] @@ [mt |-> 3, pt |-> 255, pl |-> << 4, 5 >>]
 
